@@ -334,6 +334,24 @@ class RepoIndex:
     def func(self, relpath, qualname, all_defs=False):
         m = self.module(relpath)
         ds = [d for d in m.defs.get(qualname, []) if isinstance(d, (ast.FunctionDef, ast.AsyncFunctionDef))]
+        if not ds and qualname.count('.') == 1:
+            # a method the class inherits from a base class of the same module (the class was split into a base and a subclass)
+            cname, mname = qualname.split('.')
+            seen, todo = set(), [cname]
+            while todo and not ds:
+                c = todo.pop(0)
+                if c in seen:
+                    continue
+                seen.add(c)
+                for cd in [d for d in m.defs.get(c, []) if isinstance(d, ast.ClassDef)]:
+                    for b in cd.bases:
+                        if isinstance(b, ast.Name):
+                            ds = [d for d in m.defs.get(f'{b.id}.{mname}', []) if isinstance(d, (ast.FunctionDef, ast.AsyncFunctionDef))]
+                            if ds:
+                                break
+                            todo.append(b.id)
+                    if ds:
+                        break
         if not ds:
             raise AnchorVanished(f'function {relpath}:{qualname} not found')
         return ds if all_defs else ds[-1]
